@@ -1,5 +1,7 @@
-//! Family binary (checks are registered here).
+//! Family binary: stream multiplexers (C24, C26).
+mod c24;
+mod c26;
 
 fn main() {
-    mc::main_dispatch(&[]);
+    mc::main_dispatch(&[("C24", c24::run, c24::META), ("C26", c26::run, c26::META)]);
 }
